@@ -4,8 +4,8 @@ LEVEL = "other"
 
 def check(rep, tier):
     from contracts import diffops, core_make
-    diffops.run_nary(rep, tier)
-    diffops.run_ops(rep, tier)
-    core_make.run(rep, tier)
+    rep.run(diffops.run_nary, rep, tier)
+    rep.run(diffops.run_ops, rep, tier)
+    rep.run(core_make.run, rep, tier)
     from contracts import programs_exact
-    programs_exact.run_ops(rep)
+    rep.run(programs_exact.run_ops, rep)
